@@ -65,7 +65,17 @@ def run(ctx):
             n_rows = rng.randint(1, 7)
             pool = rng.sample(range(-9, 40), rng.randint(1, 4))
             pool = [x for x in pool if x != -1] or [3]
+            if it % 10 == 2:
+                # distinct identifiers whose largest one equals (number of identifiers - 1) although some are negative
+                k = rng.randint(2, 4)
+                pool = list(range(k))
+                for j in rng.sample(range(k - 1), rng.randint(1, k - 1)):
+                    pool[j] = -2 - j - rng.randrange(3) * 4
+                pool = sorted(set(pool))
+                n_rows = max(n_rows, len(pool))
             ids = [rng.choice(pool) for _ in range(n_rows)]
+            for j, x in enumerate(pool[:n_rows]):
+                ids[j] = x
             us = sorted(set(ids))
             n_units = len(us)
             asg = spec.assignments(n_units)
